@@ -138,7 +138,7 @@ Theorem parse_units c k n :
 Proof.
   intros Hk Hm Hr. rewrite parse_exact. unfold dur_math. rewrite Hk.
   destruct k; try (exfalso; apply Hm; reflexivity);
-    (destruct (dur_ok_spec (n * unit_len _)) as [_|Hn]; [reflexivity | contradiction]).
+    match goal with |- context [dur_ok ?x] => destruct (dur_ok_spec x) as [_|Hn]; [reflexivity | contradiction] end.
 Qed.
 
 Theorem parse_simple n :
@@ -238,7 +238,7 @@ Proof.
     + assert (Hm : 0 <= d mod dur_unit k) by (apply Z.mod_pos_bound; exact Hpos).
       specialize (IH (d mod dur_unit k) Hm).
       destruct (dur_parts_from ks (d mod dur_unit k)) as [ps rest].
-      cbn [fst snd parts_sum] in *. destruct IH as [IH1 IH2]. rewrite <- dur_unit_len.
+      cbn [fst snd parts_sum] in *. destruct IH as [IH1 IH2]. rewrite <- (dur_unit_len k).
       split; [|exact IH2].
       pose proof (Z.div_mod d (dur_unit k) ltac:(lia)) as Hdm. lia.
     + apply IH. exact Hd.
@@ -470,7 +470,11 @@ Proof.
 Qed.
 
 Lemma key_of_inj i j : key_of i = key_of j -> i = j.
-Proof. unfold key_of. intro H. injection H as H. lia. Qed.
+Proof.
+  unfold key_of. intro H.
+  assert (H' : N.of_nat (48 + i) = N.of_nat (48 + j)) by exact (f_equal (fun l => hd 0%N l) H).
+  apply Nat2N.inj in H'. lia.
+Qed.
 
 Lemma fields_from_keys i tis k :
   In k (map fst (fields_from i tis)) -> exists j, (i <= j)%nat /\ k = key_of j.
@@ -558,7 +562,7 @@ Theorem additive_combine_none tis ds j :
 Proof.
   intros Hf Hlen Hj Hn. rewrite (additive_combine_exact tis ds Hf) by exact Hlen.
   enough (E : sum_checked ds 0 = None) by (rewrite E; reflexivity).
-  unfold zsum in Hn. revert j Hj Hn. generalize 0 as acc.
+  clear Hf Hlen. unfold zsum in Hn. revert j Hj Hn. generalize 0 as acc.
   induction ds as [|d r IH]; intros acc j Hj Hn; cbn [length] in Hj; [lia|].
   cbn [sum_checked]. destruct (dur_ok_spec (acc + d)) as [Hok|Hbad]; [|reflexivity].
   destruct j as [|j]; [lia|]. cbn [firstn fold_left] in Hn.
